@@ -215,14 +215,25 @@ def control_dependent(fn, ev, pos, condmatch):
     match condmatch(cond tree, polarity needed to reach pos)?"""
     bid = pos[0]
     dom = fn.dominators()
+    # an arm that IS the block of the event guards it only if that edge is the block's only way in (with `a || b` the
+    # block after the test is entered from both operands)
+    allpreds = {}
+    for b, ss in fn.succ.items():
+        for x in ss:
+            if x is not None:
+                allpreds.setdefault(x, []).append(b)
+
+    def only_through(d, arm):
+        # the edge d -> arm is the only way into arm (other predecessors are back edges from blocks arm dominates)
+        return all(p_ == d or arm in dom.get(p_, ()) for p_ in allpreds.get(arm, []))
     for d in dom.get(bid, ()):
         c = fn.cond(d)
         if not c:
             continue
         ctree, st_, sf_ = c
         # which successor leads to bid: the one that dominates it
-        dt = st_ is not None and st_ != sf_ and st_ in dom.get(bid, ()) and st_ != d
-        df = sf_ is not None and st_ != sf_ and sf_ in dom.get(bid, ()) and sf_ != d
+        dt = st_ is not None and st_ != sf_ and st_ in dom.get(bid, ()) and st_ != d and only_through(d, st_)
+        df = sf_ is not None and st_ != sf_ and sf_ in dom.get(bid, ()) and sf_ != d and only_through(d, sf_)
         if dt and not df:
             if condmatch(ctree, True):
                 return True
